@@ -166,19 +166,25 @@ def r3_sources_and_atoms(ctx):
              '' if ok else 'characters removed before measuring: %s from %s' % (removed, norm(e)))
     # too short / too long atoms in both branches
     atoms = []
+    def _len_atom(t):
+        """(len-call, bound name) of a comparison between len(<name>) and min_len/max_len in either orientation"""
+        if not (isinstance(t, ast.Compare) and len(t.ops) == 1):
+            return None
+        for a, b in ((t.left, t.comparators[0]), (t.comparators[0], t.left)):
+            if isinstance(a, ast.Call) and path_of(a.func) == 'len' and a.args and isinstance(a.args[0], ast.Name) and path_of(b) in ('min_len', 'max_len'):
+                return a, path_of(b)
+        return None
     for s in ast.walk(fn):
-        if isinstance(s, ast.If) and isinstance(s.test, ast.Compare) and len(s.test.ops) == 1 and norm(s.test.left).startswith('len(') \
-                and path_of(s.test.comparators[0]) in ('min_len', 'max_len') and isinstance(s.test.left, ast.Call) \
-                and isinstance(s.test.left.args[0], ast.Name) and any(_is_report(c) for c in A.calls_in(ast.Module(body=s.body, type_ignores=[]))):
+        if isinstance(s, ast.If) and _len_atom(s.test) and any(_is_report(c) for c in A.calls_in(ast.Module(body=s.body, type_ignores=[]))):
             code = None
             for c in A.calls_in(ast.Module(body=s.body, type_ignores=[])):
                 if _is_report(c):
                     code = A.const(c.args[2])
-            atoms.append((s, path_of(s.test.comparators[0]), code))
+            atoms.append((s, _len_atom(s.test)[1], code))
     ok = len(atoms) == 4
     yield Ob('map_if:element_if.is_valid has a min and a max length test in both branches', ok, ctx.floc(fn), '' if ok else '%d length tests' % len(atoms))
     for s, bound, code in atoms:
-        arg = s.test.left.args[0]
+        arg = _len_atom(s.test)[0].args[0]
         var = path_of(arg)
         bad = []
         for n, b in itertools.product(range(0, 9), range(0, 9)):
